@@ -23,6 +23,9 @@ def shards(tier):
                     out.append({"ctrl": c, "sstate": ss, "slog": 1, "recv": "full", "others": others, "names": [1, 1, 1, 2]})
             if c in ("CONNECT", "CONNECT_V2"):
                 out.append({"ctrl": c, "sstate": 0, "recv": "full", "others": ["L", "A"], "names": [0, 1, 1, 1]})
+            for ss in (1, 3):
+                # the sender's own connection not write-ready in this round: the acknowledgement is still owed
+                out.append({"ctrl": c, "sstate": ss, "recv": "full", "others": ["L", "A"], "names": [1, 1, 1, 2], "swr": 0})
             for rv in ("short_h", "reset_d"):
                 out.append({"ctrl": c, "sstate": 1, "recv": rv, "others": ["L", "A"], "names": [1, 1, 1, 2]})
     return out
